@@ -171,7 +171,8 @@ def processed_pair(pt):
             ref = pl.crop(ref, pt["crop"][0] + epoch, pt["crop"][1] + epoch)
             if ref.n == 0:
                 raise pl.Refusal("no-association")
-        ref, est = pl.associate(ref, est, pt["t_max_diff"], pt["t_offset"])
+        ref, est = pl.associate(ref, est, pt["t_max_diff"], pt["t_offset"],
+                                resolver=c15.evo_association)
     elif ref.n != est.n:
         raise pl.Refusal("unequal-length")
     al = pt["align"]
